@@ -217,7 +217,25 @@ def run_case(rec, k):
                 rvals = [v / conv * scale[i % 4] for i, v in enumerate(lb)]
                 rarr = np.array([float(v) for v in rvals], dtype=NPDT[c["rdt"]]).reshape(SHAPE[c["rs"]])
                 rvals = [F(float(v)) for v in rarr.ravel().tolist()]
-        nan_at0 = c["op"] in ("lt", "le", "gt", "ge", "eq", "ne") and c["ldt"][0] == "f" and k % 2 == 0 and (c["lu"] + (c.get("ru") or 0)) % 3 == 0 and c["ls"] == o.get("shape")
+        special = None
+        if fam == "kinds" and c["rk"] in ("int", "float") and k % 2 == 1:
+            if c["op"] in ("mul", "add", "sub") and c["ldt"] in ("i4", "f4") and c["lu"] % 2 == 0:
+                # a Python number too large for the Array's narrow dtype (the result is computed in 64 bits, as numpy does)
+                special = "big"
+                rvals = [F(100000)] if c["rk"] == "int" or c["ldt"] == "i4" else [F(10) ** 30]
+                lvals = [F(50000), F(30000)][:len(lvals)] if len(lvals) <= 2 else lvals
+                larr = np.array([int(v) if larr.dtype.kind in "iu" else float(v) for v in lvals], dtype=larr.dtype).reshape(larr.shape)
+            elif c["op"] != "div":
+                special = "zero"          # the number zero is a dimensionless quantity like any other number
+                rvals = [F(0)]
+        if fam == "dtypes" and c["ldt"] == "i8" and c["rdt"] == "i8" and lu == ru and k % 2 == 1 and c["op"] in ("lt", "le", "gt", "ge", "eq", "ne"):
+            # integers beyond 2**53 that differ by one (particle ids, Hilbert keys): compared exactly, not through float64
+            special = "ids"
+            lvals = [F(2 ** 53), F(2 ** 53 + 1)][:len(lvals)] if len(lvals) <= 2 else lvals
+            rvals = [F(2 ** 53 + 1), F(2 ** 53 + 1)][:len(rvals)] if len(rvals) <= 2 else rvals
+            larr = np.array([int(v) for v in lvals], dtype=larr.dtype).reshape(larr.shape)
+            rarr = np.array([int(v) for v in rvals], dtype=rarr.dtype).reshape(rarr.shape)
+        nan_at0 = special is None and c["op"] in ("lt", "le", "gt", "ge", "eq", "ne") and c["ldt"][0] == "f" and k % 2 == 0 and (c["lu"] + (c.get("ru") or 0)) % 3 == 0 and c["ls"] == o.get("shape")
         if nan_at0:
             # an undefined value compares False with everything (True for !=), as in numpy
             larr = larr.copy()
@@ -229,7 +247,7 @@ def run_case(rec, k):
         elif rk == "int":
             b = int(rvals[0])
         elif rk == "float":
-            b = float(rvals[0])
+            b = float(rvals[0]) if special != "zero" else (0.0 if k % 4 == 1 else -0.0)
         elif rk == "nd0":
             b = np.array(rarr.ravel()[0])
         elif rk == "nd1":
@@ -289,7 +307,7 @@ def run_case(rec, k):
         a = A(larr, unit=UNITSTR[lu])
         sa = snapshot(a)
         nd = np.array([2.0, 4.0]) if c["ls"] != "s0" and SHAPE[c["ls"]][-1] == 2 else np.array(2.0)
-        fn = {"neg": lambda: -a, "pow2": lambda: a ** 2, "pow2nd": lambda: (a ** np.array(2) if k % 2 else np.power(a, np.array(2))), "pow3": lambda: a ** 3, "pow2q": lambda: a ** (2 * osyris.units("dimensionless")), "pow3a": lambda: a ** A(3.0 if k % 2 else 3),
+        fn = {"neg": lambda: -a, "pow2": lambda: a ** 2, "pow2nd": lambda: (a ** np.array(2) if k % 2 else np.power(a, np.array(2))), "pow3": lambda: a ** 3, "pow2q": lambda: a ** (2 * osyris.units("dimensionless")), "pow2s": lambda: a ** A(0.02, unit="m/cm"), "pow3a": lambda: a ** A(3.0 if k % 2 else 3),
               "powdim": lambda: a ** A(2.0, unit="s"), "raddnd": lambda: (nd + a if k % 2 else np.float64(2.0) + a), "rsubnd": lambda: (nd - a if k % 2 else np.float64(2.0) - a),
               "rltnd": lambda: (nd < a if k % 2 else np.float64(2.0) < a), "pow0": lambda: a ** 0, "powm1": lambda: a ** -1, "powm2": lambda: a ** -2,
               "sqrt": lambda: (a ** 0.5 if k % 2 else np.sqrt(a)), "rmul2": lambda: 2 * a, "rmulf": lambda: 0.5 * a, "rdiv2": lambda: 2 / a, "rdivf": lambda: 0.5 / a,
@@ -307,7 +325,7 @@ def run_case(rec, k):
         ndv = [F(2), F(4)] if nd.shape else [F(2)]
         n = len(lvals)
         ndb = [ndv[i % len(ndv)] for i in range(n)]
-        exp = {"neg": [-v for v in lvals], "pow2": [v ** 2 for v in lvals], "pow2nd": [v ** 2 for v in lvals], "pow3": [v ** 3 for v in lvals], "pow2q": [v ** 2 for v in lvals], "pow3a": [v ** 3 for v in lvals], "powdim": None, "raddnd": None, "rsubnd": None, "rltnd": None, "pow0": [F(1)] * n,
+        exp = {"neg": [-v for v in lvals], "pow2": [v ** 2 for v in lvals], "pow2nd": [v ** 2 for v in lvals], "pow3": [v ** 3 for v in lvals], "pow2q": [v ** 2 for v in lvals], "pow2s": [v ** 2 for v in lvals], "pow3a": [v ** 3 for v in lvals], "powdim": None, "raddnd": None, "rsubnd": None, "rltnd": None, "pow0": [F(1)] * n,
                "powm1": [1 / v for v in lvals] if op == "powm1" else None, "powm2": [1 / v ** 2 for v in lvals] if op == "powm2" else None,
                "sqrt": roots if op == "sqrt" else None, "rmul2": [2 * v for v in lvals], "rmulf": [v / 2 for v in lvals],
                "rdiv2": [2 / v for v in lvals] if op == "rdiv2" else None, "rdivf": [F(1, 2) / v for v in lvals] if op == "rdivf" else None,
@@ -341,6 +359,17 @@ def run_case(rec, k):
             raised = e
         if not same_snapshot(sa, snapshot(a)):
             return "mismatch", "a.to() modified its source", {}
+        # the rule does not depend on how many elements there are: an Array without elements is refused / relabelled alike
+        for empty in (np.zeros((0,)), np.zeros((2, 0))):
+            try:
+                re_ = A(empty, unit=UNITSTR[lu]).to(target)
+                if o["raises"]:
+                    return "mismatch", f"spec: conversion {lu}->{ru} raises, an Array of shape {empty.shape} was converted to {re_.unit}", {}
+                if sparse_of_pint(re_.unit) != SPARSE[ru] or re_.shape != empty.shape:
+                    return "mismatch", f"conversion of an Array of shape {empty.shape}: unit {re_.unit}, shape {re_.shape}", {}
+            except Exception as e:
+                if not o["raises"]:
+                    return "mismatch", f"conversion {lu}->{ru} of an Array of shape {empty.shape} raised {type(e).__name__}: {e}", {}
         if o["raises"]:
             return ("match", None, {}) if raised is not None else ("mismatch", f"spec: conversion {lu}->{ru} raises, implementation returned {res!r}", {})
         if raised is not None:
@@ -383,6 +412,42 @@ def run_case(rec, k):
     if fam == "np":
         from . import arrays_np
         return arrays_np.run_np_case(rec, k)
+    if fam == "ophist":
+        ru = names["r"]
+        lvals = [F(4), F(8)]
+        rvals = [F(2), F(16)]
+        a = A(np.array([float(v) for v in lvals]), unit=UNITSTR[lu])
+        b = A(np.array([float(v) for v in rvals]), unit=UNITSTR[ru])
+        conv = cgs(ru) / cgs(lu) if sparse_dim_equal(lu, ru) else F(1)
+        try:
+            _ = a * 3.0                                  # use the Array once before its unit changes
+            if c["mut"] == "imul":
+                a *= b
+                now = [x * y * conv for x, y in zip(lvals, rvals)]
+            else:
+                a /= b
+                now = [x / (y * conv) for x, y in zip(lvals, rvals)]
+            f2 = c["f2"]
+            if f2 == "mulk":
+                res, exp = a * 2.5, [v * F(5, 2) for v in now]
+            elif f2 == "pow2":
+                res, exp = a ** 2, [v * v for v in now]
+            elif f2 == "rdivk":
+                res, exp = 2.0 / a, [2 / v for v in now]
+            elif f2 == "neg":
+                res, exp = -a, [-v for v in now]
+            else:
+                if c["mut"] == "imul":
+                    a *= b
+                    exp = [v * y * conv for v, y in zip(now, rvals)]
+                else:
+                    a /= b
+                    exp = [v / (y * conv) for v, y in zip(now, rvals)]
+                res = a
+        except Exception as e:
+            return "mismatch", f"history x {c['mut']} y, then {c['f2']}: raised {type(e).__name__}: {e}", {}
+        d = check_result(res, o, exp, (2,), ["f8"], unit_tol(lu, ru), "f")
+        return ("mismatch", f"after x {'*=' if c['mut'] == 'imul' else '/='} y, {c['f2']}: " + d, {}) if d else ("match", None, {})
     if fam == "nphist":
         vals = [F(4), F(9)] if k % 2 == 0 else [F(16), F(25)]
         a = A(np.array([float(v) for v in vals]), unit=UNITSTR[lu])
@@ -449,7 +514,7 @@ def emit_cases(rep, fams):
 def run_families(rep, tier, seed, fams, label, sample=None):
     global _RECS
     import osyris  # noqa
-    recs = [r for r in emit_cases(rep, fams) if r["c"]["fam"] in fams or (r["c"]["fam"] == "nphist" and "np" in fams)]
+    recs = [r for r in emit_cases(rep, fams) if r["c"]["fam"] in fams or (r["c"]["fam"] == "nphist" and "np" in fams)]      # (nphist rides with the np catalogue)
     rng = random.Random(seed + 31)
     if sample:
         keep = []
@@ -510,7 +575,7 @@ ASSUME = ["the independent unit table harness/units_map.py (exact metric factors
 
 
 def run_c02(rep, tier, seed):
-    run_families(rep, tier, seed, {"units", "dtypes", "kinds", "shapes", "unary"}, "arithmetic")
+    run_families(rep, tier, seed, {"units", "dtypes", "kinds", "shapes", "unary", "ophist"}, "arithmetic")
     _drop_cmp(rep)
     rep.cov["rule"] = RULE
     rep.assumptions += ASSUME
